@@ -179,11 +179,21 @@ def local_comp_events(g1, n):
     from graphiq.backends.lc_equivalence_check import local_comp_graph
     from graphiq.backends.graph.state import Graph
     evs = []
+    import random as _random
+    order = list(range(n))
+    _random.Random(n * 1000 + g1.number_of_edges()).shuffle(order)
+    gsh = nx.Graph()                 # the same state handed over with another node INSERTION order (position view = g1)
+    gsh.add_nodes_from(order)
+    gsh.add_edges_from((order[a], order[b]) for a, b in g1.edges())
     for v in range(n):
-        for via in ("local_comp_graph", "Graph.local_complementation:copy", "Graph.local_complementation:inplace"):
+        for via in ("local_comp_graph", "local_comp_graph:shuffled-insertion", "Graph.local_complementation:copy",
+                    "Graph.local_complementation:inplace"):
             try:
                 if via == "local_comp_graph":
                     out = local_comp_graph(g1.copy(), v)
+                elif via == "local_comp_graph:shuffled-insertion":
+                    # the function works on POSITIONS (adjacency matrix in insertion order, result labelled 0..n-1)
+                    out = local_comp_graph(gsh.copy(), v)
                 else:
                     gr = Graph(g1.copy())
                     res = gr.local_complementation(v, copy=via.endswith("copy"))
